@@ -73,7 +73,8 @@ Marshals(e) == {<<Block(e, k)[2], Block(e, k)[11]>> : k \in 1..NBlocks(e)}
 SansMarshal(e) == [k \in 1..Len(P(e)) |-> IF k <= 11 * NBlocks(e) /\ (k % 11 = 0 \/ k % 11 = 10) THEN <<>> ELSE P(e)[k]]
 
 Names == {"Completed", "StreamWellFormed", "ExactlyTheGeometryVariables", "BlocksMatchInputs", "TrailerIsConvention",
-          "SameGeometrySameKey", "AttrsSerialisationFunctional", "DifferentGeometryDifferentKey", "KeyIsFunctionOfStream"}
+          "SameGeometrySameKey", "AttrsSerialisationFunctional", "DifferentGeometryDifferentKey", "KeyIsFunctionOfStream",
+          "DefaultCallSameKey"}
 
 Holds(name, e) ==
   CASE name = "Completed" -> Ok(e)
@@ -89,6 +90,10 @@ Holds(name, e) ==
          (Ok(e) /\ WellFormedLen(e)) =>
             LET tr == Trailer(e)
             IN StrOK(tr[1], tr[2], e.module) /\ StrOK(tr[3], tr[4], e.classb) /\ StrOK(tr[5], tr[6], e.version)
+    [] name = "DefaultCallSameKey" ->
+         \* make_cache_key(dataset) with its default hash object returns the digest of the very stream that was recorded
+         \* (also when it is asked again on the same dataset object after an edit in place)
+         (Ok(e) /\ "key_default" \in DOMAIN e.obs.ok) => e.obs.ok.key_default = e.obs.ok.key
     [] name = "SameGeometrySameKey" ->
          \* an earlier variant with the same abstract geometry fed the hash the same stream (the marshalled attribute
          \* bytes are judged separately by AttrsSerialisationFunctional) and, if those agree too, has the same key
